@@ -230,6 +230,15 @@ amin = min
 amax = max
 
 
+def empty(shape, dtype=None, *a, **k):
+    """np.empty(...) of the default dtype is an object array here, so that symbolic scalars can be stored into it"""
+    if dtype in (None, float, _np.float64) or dtype is float64:
+        arr = _np.empty(shape, dtype=object)
+        arr.fill(0.0)
+        return arr.view(SymArray)
+    return _np.empty(shape, dtype, *a, **k)
+
+
 class _ArrayKey:
     """stand-in for the *string* numpy would print: equal keys <=> equal rounded contents
     (idealised injective formatting, see DESIGN.md C12)"""
